@@ -1428,7 +1428,21 @@ func (e *absEngine) runFunc(fr *frame, entry *nst) {
 			if !(isIntType(ph.Type()) || isBoolType(ph.Type())) {
 				// strings: carry the length symbol
 				if bt, ok := ph.Type().Underlying().(*types.Basic); ok && bt.Info()&types.IsString != 0 && pi >= 0 {
-					as = append(as, asg{"len:" + fr.ctx + ":" + ph.Name(), e.lenLin(fr, o, ph.Edges[pi]), true})
+					l := e.lenLin(fr, o, ph.Edges[pi])
+					as = append(as, asg{"len:" + fr.ctx + ":" + ph.Name(), l, true})
+					// a length that is a remainder A - B (the rest of the input after B), or that has a sum ghost with
+					// B (an index into such a rest): carry the sum length + B, bounded by A, across the join
+					if a, b, _, ok := diffForm(o.k.reduce(l)); ok && a != "" && b != "" {
+						as = append(as, asg{"g:" + fr.ctx + ":" + ph.Name() + ":sum:" + b, l.plus(lvar(b)), true})
+					} else if vs := l.vars(); len(vs) == 1 && l.k.n == 0 && l.co[vs[0]].eq(ri(1)) {
+						pre := "g:" + strings.TrimPrefix(vs[0], "v:") + ":sum:"
+						for _, nm := range o.z.names {
+							if strings.HasPrefix(nm, pre) {
+								b := strings.TrimPrefix(nm, pre)
+								as = append(as, asg{"g:" + fr.ctx + ":" + ph.Name() + ":sum:" + b, lvar(nm), true})
+							}
+						}
+					}
 				}
 				e.copyStructPhi(fr, o, ph, pi)
 				continue
